@@ -825,6 +825,11 @@ func makeTestKeys() (Keys, error) {
 		return k, err
 	}
 	k.CRLs = [][]byte{crl}
+	if foreign, err := ForeignCRL(caKey, now); err == nil {
+		k.CRLs = append(k.CRLs, foreign)
+	} else {
+		return k, err
+	}
 
 	tsaKey, err := ecdsa.GenerateKey(elliptic.P256(), rand.Reader)
 	if err != nil {
@@ -834,4 +839,32 @@ func makeTestKeys() (Keys, error) {
 		return k, err
 	}
 	return k, nil
+}
+
+// ForeignCRL is a valid v2 CRL encoded the way a non-Go issuer might: attribute values
+// as UTF8String / IA5String where PrintableString would do, an explicit empty
+// extensions-free body and a revoked entry with a reason extension. A re-encoding by
+// Go's encoder would not reproduce these bytes.
+func ForeignCRL(caKey crypto.Signer, now time.Time) ([]byte, error) {
+	name := der.EncSeq(
+		der.EncSet(der.EncSeq(der.EncOID("2.5.4.10"), der.EncUTF8("xverif"))),
+		der.EncSet(der.EncSeq(der.EncOID("2.5.4.11"), der.EncTLV(der.ClassUniversal, false, 22, []byte("crl unit")))), // IA5String
+		der.EncSet(der.EncSeq(der.EncOID("2.5.4.3"), der.EncUTF8("xverif cmsgen CA"))),
+	)
+	sigAlg := der.EncSeq(der.EncOID("1.2.840.10045.4.3.2")) // ecdsa-with-SHA256, parameters absent
+	if _, ok := caKey.Public().(*rsa.PublicKey); ok {
+		sigAlg = der.EncSeq(der.EncOID("1.2.840.113549.1.1.11"), der.EncNull()) // sha256WithRSAEncryption
+	}
+	reason := der.EncSeq(der.EncSeq(der.EncOID("2.5.29.21"), der.EncOctets([]byte{0x0a, 0x01, 0x01})))
+	revoked := der.EncSeq(
+		der.EncSeq(der.EncInt64(0x0badcafe), der.EncUTCTime(now.Add(-3*time.Hour)), reason),
+		der.EncSeq(der.EncInt64(0x0101), der.EncUTCTime(now.Add(-2*time.Hour))),
+	)
+	tbs := der.EncSeq(der.EncInt64(1), sigAlg, name, der.EncUTCTime(now.Add(-time.Hour)), der.EncUTCTime(now.AddDate(0, 2, 0)), revoked)
+	digest := sha256.Sum256(tbs)
+	sig, err := caKey.Sign(rand.Reader, digest[:], crypto.SHA256)
+	if err != nil {
+		return nil, err
+	}
+	return der.EncSeq(tbs, sigAlg, der.EncBitString(sig, 0)), nil
 }
